@@ -346,7 +346,7 @@ func ruleLookupOrder(p *Program, r *Reporter) {
 					fromFields = true
 				}
 			case *ssa.UnOp:
-				if g, ok := x.X.(*ssa.Global); ok && objectStructName(g.Type()) == "Null" {
+				if g, ok := x.X.(*ssa.Global); ok && objectStructName(deref(g.Type())) == "Null" {
 					isNull = true
 				}
 			case *ssa.Alloc:
